@@ -124,8 +124,8 @@ Inductive presult := POk (u : url) | PErr | POut.
 (** strings.Cut(s, sep) for a one-byte separator *)
 Fixpoint cut_at (sep : N) (s : bytes) (acc : bytes) : bytes * bytes * bool :=
   match s with
-  | [] => (rev acc, [], false)
-  | c :: t => if c =? sep then (rev acc, t, true) else cut_at sep t (c :: acc)
+  | [] => (frev acc, [], false)
+  | c :: t => if c =? sep then (frev acc, t, true) else cut_at sep t (c :: acc)
   end.
 Definition cut1 (sep : N) (s : bytes) : bytes * bytes * bool := cut_at sep s [].
 
@@ -140,7 +140,7 @@ Fixpoint get_scheme_aux (first : bool) (s acc : bytes) (whole : bytes) : option 
     else if ((48 <=? c) && (c <=? 57)) || (c =? 43) || (c =? 45) || (c =? 46) then
       if first then Some ([], whole) else get_scheme_aux false t (c :: acc) whole
     else if c =? 58 then
-      if first then None else Some (rev acc, t)
+      if first then None else Some (frev acc, t)
     else Some ([], whole)
   end.
 Definition get_scheme (s : bytes) : option (bytes * bytes) := get_scheme_aux true s [] s.
@@ -220,7 +220,7 @@ Definition url_parse_nofrag (raw : bytes) : presult :=
     | Some (scheme, rest) =>
       let scheme := to_lower scheme in
       let '(rest, rawquery, force) :=
-          if (match rev rest with 63 :: _ => true | _ => false end) && Nat.eqb (count_byte 63 rest) 1
+          if (match frev rest with 63 :: _ => true | _ => false end) && Nat.eqb (count_byte 63 rest) 1
           then (removelast rest, [], true)
           else let '(a, b, _) := cut1 63 rest in (a, b, false) in
       if negb (has_prefix [47] rest) && nonempty scheme then
@@ -304,8 +304,8 @@ Definition query_piece (pr : bytes) : list (bytes * bytes) :=
 (** the loop [for query != "" { key, query, _ = strings.Cut(query, "&") ... }] *)
 Fixpoint parse_query_aux (q : bytes) (cur : bytes) : list (bytes * bytes) :=
   match q with
-  | [] => query_piece (rev cur)
-  | c :: t => if c =? 38 then query_piece (rev cur) ++ parse_query_aux t [] else parse_query_aux t (c :: cur)
+  | [] => query_piece (frev cur)
+  | c :: t => if c =? 38 then query_piece (frev cur) ++ parse_query_aux t [] else parse_query_aux t (c :: cur)
   end.
 Definition parse_query (q : bytes) : list (bytes * bytes) := parse_query_aux q [].
 (** func (v Values) Get(key string) string *)
